@@ -79,7 +79,10 @@ ASSUMPTIONS = {
     'C12': ['invariants are checked on finite-dimensional instances of '
             'dimension <= 8 with exact adjoints and admissible steps',
             'liveness bound N=3000 iterations, residual factor 1e-3, only on '
-            'instances an independent textbook PDHG solves 10x faster',
+            'instances an independent textbook PDHG solves 10x faster; an '
+            'iterate that is by then within 1e-3 of the point verified by '
+            'the reference solve gets 30000 iterations in one uninterrupted '
+            'run (active-set identification next to a kink)',
             'a clean batch is evidence, not proof'],
 }
 
